@@ -97,6 +97,15 @@ impl StreamContext {
         info!("finished execution");
     }
 
+    /// Build the execution graph and the network addresses of this host without starting the
+    /// computation, and describe them.
+    #[cfg(feature = "verif")]
+    pub fn verif_execution_graph(self) -> crate::verif::GraphDump {
+        let mut env = self.inner.lock();
+        let scheduler = env.scheduler.take().unwrap();
+        scheduler.verif_graph_dump()
+    }
+
     /// Get the total number of processing cores in the cluster.
     pub fn parallelism(&self) -> CoordUInt {
         match &self.inner.lock().config {
